@@ -296,8 +296,7 @@ func Analyse(token string, roles map[string]*Key, now time.Time) Facts {
 	if err != nil {
 		return f
 	}
-	dec := json.NewDecoder(strings.NewReader(string(pb)))
-	if dec.Decode(&f.Claims) != nil {
+	if json.Unmarshal(pb, &f.Claims) != nil {
 		return f
 	}
 	alg, ok := hdr["alg"].(string)
